@@ -1024,9 +1024,11 @@ class DependenciesMapping(MutableMapping):
     def __init__(self, dsk):
         self.dsk = dsk
         self._removed = set()
-        # Set a copy of dsk to avoid dct resizing
-        self._cache = dsk.copy()
-        self._cache.clear()
+        # A dict that already has room for every key of dsk, to avoid resizing.
+        # ``None`` means "not computed yet". (``dsk.copy()`` + ``clear()`` only
+        # empties plain dicts: a ChainMap keeps its parents' raw tasks and a
+        # HighLevelGraph cannot be cleared)
+        self._cache = dict.fromkeys(dsk)
 
     def __getitem__(self, key):
         if (val := self._cache.get(key)) is not None:
